@@ -18,7 +18,7 @@ TECHNIQUE = ('runtime monitoring: exhaustive sweep of the live neutron records a
              're-read of the embedded tables (reference-model monitor); sys.monitoring reach counters on nsf.init and '
              'nsf.fix_number prove the loader converted every number of every row')
 LEVEL_TEXT = ('Every row of the embedded neutron table and of its imaginary companion, every atom outside the table and '
-              'every node of the 14 energy tables is read through the public attributes of the public table and of private '
+              'every node, three interior points of every segment and six points beyond the ends of the 14 energy tables are read through the public attributes of the public table and of private '
               'tables created at several points of a process history, and compared with an independent reader; the sweep '
               'is exhaustive over rows, fields and nodes, so the only sampling is over process histories.')
 LEVEL_NOTE = ('Trusted: the regex reader in pvmon/ref/neutron.py, CPython float parsing, the embedded strings and the source '
@@ -43,7 +43,7 @@ def _variants(ctx):
     return v
 
 
-def _private(name, reach=None):
+def _private(name):
     from periodictable import core, mass, density, nsf
     T = core.PeriodicTable(name)
     mass.init(T)
@@ -52,7 +52,7 @@ def _private(name, reach=None):
     return T
 
 
-def setup(ctx, force_thorough=False):
+def setup(ctx):
     import periodictable as pt
     from periodictable import nsf
     from ..ref.neutron import NeutronModel
@@ -83,37 +83,44 @@ def setup(ctx, force_thorough=False):
                 '(7 per row + abundances + 3 per imaginary row)')
     ctx.require('reach.nsf.init', 2, 'nsf.init must have run for the public and for a private table')
     ctx.require('reach.energy_dependent_init', 2, 'energy tables attached for the public and a private table')
-    if ctx.thorough() or force_thorough:
-        # a history: other lazy groups, calculators, then a late private table
-        for el in (pt.Fe, pt.Cu):
-            el.covalent_radius, el.crystal_structure, el.xray, el.K_alpha, el.magnetic_ff
-        pt.Fe[56].neutron_activation
-        pt.neutron_sld('Gd2O3', density=7.4, wavelength=0.7)
-        pt.Gd.neutron.scattering(wavelength=[0.5, 4.0])
-        tables['private_late'] = _private('c07_late_%d' % ctx.shard)
-        # mutate every record of one private table, then create another one; the public table is swept again last
-        Ta = _private('c07_mut_%d' % ctx.shard)
-        import numpy as np
-        for el in Ta:
-            for at in [el] + list(el):
-                n = at.__dict__.get('neutron')
-                if n is None:
-                    continue
-                n.b_c, n.total, n.absorption, n.coherent = 1.25, 2.5, 3.75, 5.0
-                n.b_c_complex = 7 - 7j
-                n.abundance, n.is_energy_dependent, n.b_c_i = 12.5, True, -9.
-                if n.nsf_table is not None:
-                    n.nsf_table = (n.nsf_table[0], np.zeros_like(n.nsf_table[1]))
-        tables['private_after_mutation'] = _private('c07_aftermut_%d' % ctx.shard)
-        tables['public_after_private'] = pt.elements
+    _state['tables'] = tables
+    if ctx.thorough():
+        _history(ctx)
     reach.stop()
     _state['reach'] = reach
-    _state['tables'] = tables
+
+
+def _history(ctx):
+    """Thorough-tier table variants (also built on demand when a witness of such a variant is replayed)."""
+    import periodictable as pt
+    tables = _state['tables']
+    # a history: other lazy groups, calculators, then a late private table
+    for el in (pt.Fe, pt.Cu):
+        el.covalent_radius, el.crystal_structure, el.xray, el.K_alpha, el.magnetic_ff
+    pt.Fe[56].neutron_activation
+    pt.neutron_sld('Gd2O3', density=7.4, wavelength=0.7)
+    pt.Gd.neutron.scattering(wavelength=[0.5, 4.0])
+    tables['private_late'] = _private('c07_late_%d' % ctx.shard)
+    # mutate every record of one private table, then create another one; the public table is swept again last
+    Ta = _private('c07_mut_%d' % ctx.shard)
+    import numpy as np
+    for el in Ta:
+        for at in [el] + list(el):
+            n = at.__dict__.get('neutron')
+            if n is None:
+                continue
+            n.b_c, n.total, n.absorption, n.coherent = 1.25, 2.5, 3.75, 5.0
+            n.b_c_complex = 7 - 7j
+            n.abundance, n.is_energy_dependent, n.b_c_i = 12.5, True, -9.
+            if n.nsf_table is not None:
+                n.nsf_table = (n.nsf_table[0], np.zeros_like(n.nsf_table[1]))
+    tables['private_after_mutation'] = _private('c07_aftermut_%d' % ctx.shard)
+    tables['public_after_private'] = pt.elements
 
 
 def _table(ctx, name):
     if name not in _state['tables']:
-        setup(ctx, force_thorough=True)     # replay of a thorough-tier variant
+        _history(ctx)     # replay of a thorough-tier variant in a quick-tier context
     return _state['tables'][name]
 
 
@@ -316,7 +323,7 @@ def check_energy(ctx, case):
         ctx.violation('%s: vector call over all %d nodes differs from the table (worst %r)'
                       % (label, len(ws), float(np.nanmax(np.abs(bv - np.array(bs)))) if bv.shape == (len(ws),) else 'shape'),
                       field='energy-node-vector')
-    if ctx.thorough() or case.get('between'):
+    if True:   # both tiers: segment interior points and end clamps (cheap)
         ctx.distinct_case((case['table'], 'energy-between', Z, A))
         pts = m.wavelength_table(Z, A)
         probes = []
@@ -362,9 +369,12 @@ def finish(ctx):
     r = _state.get('reach')
     if r is not None:
         r.export(ctx)
-    ctx.require('rows_checked', 364, 'every row of the neutron table visited on at least one table')
-    ctx.require('imaginary_rows_checked', 16, 'every row of the imaginary table visited')
-    ctx.require('energy_nodes_checked', _state['model'].energy_nodes, 'every node of every energy table visited')
+    m = _state['model']
+    nv = len(_variants(ctx))
+    ctx.require('rows_checked', m.nrows * nv, 'every row of the neutron table visited on every table variant')
+    ctx.require('imaginary_rows_checked', len(m.imag_rows) * nv, 'every row of the imaginary table visited on every variant')
+    ctx.require('energy_nodes_checked', m.energy_nodes * nv, 'every node of every energy table visited on every variant')
+    ctx.info['table_variants'] = _variants(ctx)
 
 
 def classify(rec):
